@@ -91,7 +91,8 @@ pub(crate) trait MessageType: Sized {
 
         match length {
             BodySize::Stream => {
-                if chunked {
+                // HTTP/1.0 has no chunked transfer coding
+                if chunked && version >= Version::HTTP_11 {
                     skip_len = true;
                     if camel_case {
                         dst.put_slice(b"\r\nTransfer-Encoding: chunked\r\n")
@@ -99,7 +100,9 @@ pub(crate) trait MessageType: Sized {
                         dst.put_slice(b"\r\ntransfer-encoding: chunked\r\n")
                     }
                 } else {
-                    skip_len = false;
+                    // keep a user supplied content-length only when chunking was disabled
+                    // explicitly; an HTTP/1.0 stream body is delimited by closing the connection
+                    skip_len = chunked;
                     dst.put_slice(b"\r\n");
                 }
             }
@@ -356,7 +359,7 @@ impl<T: MessageType> MessageEncoder<T> {
                 BodySize::Sized(0) => TransferEncoding::empty(),
                 BodySize::Sized(len) => TransferEncoding::length(len),
                 BodySize::Stream => {
-                    if message.chunked() && !stream {
+                    if message.chunked() && !stream && version >= Version::HTTP_11 {
                         TransferEncoding::chunked()
                     } else {
                         TransferEncoding::eof()
